@@ -20,7 +20,7 @@
               snapshot without spans has an empty local map and nothing open. *)
 From TT Require Import Tunnel.TypesProofs.
 From TT Require Export Judge.Recv Tunnel.ReceiverSpec.
-From TT Require Import Tunnel.ReceiverInv Tunnel.ReceiverHistInv Tunnel.ReceiverTrack.
+From TT Require Import Tunnel.ReceiverInv Tunnel.ReceiverHistInv Tunnel.ReceiverTrack Tunnel.ReceiverAbs Tunnel.ReceiverAbsProofs.
 From stdpp Require Import gmap.
 Arguments firstn : simpl never.
 Arguments skipn : simpl never.
@@ -349,3 +349,155 @@ Proof.
     apply andb_true_iff in H as [_ H]. destruct (IH _ _ _ _ Hlen H) as [opn' Ht].
     exists opn'. by eapply track_all_app_Some.
 Qed.
+
+(** * the model's own observations pass [refs_ok] on every history in scope: the counts recomputed
+    from the events are the handle counts of the reference state ([spec_step], ReceiverSpec.v), which
+    the model's persisted spans equal by the refinement theorem *)
+Lemma alookup_aset {V} k j (v : V) l : alookup k (aset j v l) = if N.eqb k j then Some v else alookup k l.
+Proof.
+  induction l as [|[k' v'] l IH]; simpl.
+  - destruct (N.eqb k j); done.
+  - destruct (N.eqb_spec j k') as [->|Hne]; simpl.
+    + destruct (N.eqb k k'); done.
+    + rewrite IH. destruct (N.eqb_spec k k') as [->|]; [|done].
+      destruct (N.eqb_spec k' j); [congruence | done].
+Qed.
+
+Lemma aset_keys {V} j (v : V) l k : k ∈ (aset j v l).*1 ↔ k = j ∨ k ∈ l.*1.
+Proof.
+  induction l as [|[k' v'] l IH]; simpl.
+  - rewrite elem_of_list_singleton. set_solver.
+  - destruct (N.eqb_spec j k') as [->|Hne]; simpl; rewrite !elem_of_cons; [tauto|]. rewrite IH. tauto.
+Qed.
+
+Lemma aset_NoDup {V} j (v : V) l : NoDup l.*1 → NoDup (aset j v l).*1.
+Proof.
+  induction l as [|[k' v'] l IH]; simpl; intros H.
+  - apply NoDup_singleton.
+  - apply NoDup_cons in H as [Hni Hnd]. destruct (N.eqb_spec j k') as [->|Hne]; simpl.
+    + apply NoDup_cons. done.
+    + apply NoDup_cons. split; [|by apply IH]. rewrite aset_keys. intros [->|Hin]; done.
+Qed.
+
+Lemma adel_keys {V} j (l : list (N * V)) k : k ∈ (adel j l).*1 → k ∈ l.*1.
+Proof.
+  induction l as [|[k' v'] l IH]; simpl; [done|].
+  destruct (N.eqb j k'); simpl; rewrite ?elem_of_cons; [tauto|]. intros [->|H]; [tauto|]. right. by apply IH.
+Qed.
+
+Lemma adel_NoDup {V} j (l : list (N * V)) : NoDup l.*1 → NoDup (adel j l).*1.
+Proof.
+  induction l as [|[k' v'] l IH]; simpl; intros H; [done|].
+  apply NoDup_cons in H as [Hni Hnd]. destruct (N.eqb j k'); simpl; [done|].
+  apply NoDup_cons. split; [|by apply IH]. intros Hin. apply Hni. by eapply adel_keys.
+Qed.
+
+Lemma alookup_None {V} k (l : list (N * V)) : alookup k l = None ↔ k ∉ l.*1.
+Proof.
+  induction l as [|[k' v'] l IH]; simpl.
+  - split; [intros _; apply not_elem_of_nil | done].
+  - rewrite not_elem_of_cons. destruct (N.eqb_spec k k') as [->|Hne]; [split; [done | intros [? _]; done]|].
+    rewrite IH. tauto.
+Qed.
+
+Lemma alookup_adel {V} k j (l : list (N * V)) :
+  NoDup l.*1 → alookup k (adel j l) = if N.eqb k j then None else alookup k l.
+Proof.
+  induction l as [|[k' v'] l IH]; simpl; intros H.
+  - destruct (N.eqb k j); done.
+  - apply NoDup_cons in H as [Hni Hnd]. simpl in Hni.
+    destruct (N.eqb_spec j k') as [->|Hne]; simpl.
+    + destruct (N.eqb_spec k k') as [->|]; [by apply alookup_None | done].
+    + rewrite IH by done. destruct (N.eqb_spec k k') as [->|]; [|done].
+      destruct (N.eqb_spec k' j); [congruence | done].
+Qed.
+
+Definition refs_rel (refs : list (N * N)) (s : gmap N span_data) : Prop :=
+  NoDup refs.*1 ∧ ∀ id, alookup id refs = sd_refs <$> (s !! id).
+
+Lemma refs_rel_empty : refs_rel [] ∅.
+Proof. split; [constructor|]. intros id. by rewrite lookup_empty. Qed.
+
+Lemma refs_event_rel refs s ev : refs_rel refs s → refs_rel (refs_event refs ev) (spec_step s ev).
+Proof.
+  intros [Hnd Hl]. destruct ev as [id d|id p m vs|a b|id|id|id|id|id vs|m p vs]; simpl; try done.
+  - split; [by apply aset_NoDup|]. intros k. rewrite alookup_aset.
+    destruct (N.eqb_spec k id) as [->|Hne]; [by rewrite lookup_insert | by rewrite lookup_insert_ne].
+  - rewrite Hl. destruct (s !! id) as [d|] eqn:Es; simpl; [|done].
+    split; [by apply aset_NoDup|]. intros k. rewrite alookup_aset.
+    destruct (N.eqb_spec k id) as [->|Hne]; [by rewrite lookup_insert | by rewrite lookup_insert_ne].
+  - rewrite Hl. destruct (s !! id) as [d|] eqn:Es; simpl; [|done].
+    destruct (N.leb_spec (sd_refs d) 1), (N.eqb_spec (sd_refs d - 1) 0); try lia.
+    + split; [by apply adel_NoDup|]. intros k. rewrite alookup_adel by done.
+      destruct (N.eqb_spec k id) as [->|Hne]; [by rewrite lookup_delete | by rewrite lookup_delete_ne].
+    + split; [by apply aset_NoDup|]. intros k. rewrite alookup_aset.
+      destruct (N.eqb_spec k id) as [->|Hne]; [by rewrite lookup_insert | by rewrite lookup_insert_ne].
+  - destruct (s !! id) as [d|] eqn:Es; [|done]. split; [done|]. intros k. rewrite Hl.
+    destruct (N.eqb_spec k id) as [->|Hne]; [by rewrite lookup_insert, Es | by rewrite lookup_insert_ne].
+Qed.
+
+Lemma refs_match_rel refs st : refs_rel refs (r_spans st) → refs_match refs (snap_of st) = true.
+Proof.
+  intros [Hnd Hl]. unfold refs_match, snap_of. cbn [sn_spans]. apply andb_true_iff. split.
+  - apply Nat.eqb_eq. rewrite <- (fmap_length fst refs), <- (fmap_length fst (map_to_list (r_spans st))).
+    apply Permutation_length. apply NoDup_Permutation; [done | apply NoDup_fst_map_to_list |].
+    intros k. transitivity (is_Some (alookup k refs)).
+    + destruct (alookup k refs) eqn:E.
+      * split; [eauto|]. intros _. destruct (decide (k ∈ refs.*1)); [done|]. apply alookup_None in n0. congruence.
+      * apply alookup_None in E. split; [done | intros [? ?]; done].
+    + rewrite Hl, fmap_is_Some. split.
+      * intros [d Hd]. apply elem_of_list_fmap. exists (k, d). split; [done | by apply elem_of_map_to_list].
+      * intros Hin. apply elem_of_list_fmap in Hin as ([k' d] & -> & Hin). apply elem_of_map_to_list in Hin. eauto.
+  - apply forallb_forall. intros [k d] Hin. apply elem_of_list_In, elem_of_map_to_list in Hin. simpl.
+    rewrite Hl, Hin. simpl. apply N.eqb_refl.
+Qed.
+
+Lemma refs_walk_model steps : ∀ h refs committed,
+  HInv h → hist_scope h steps → refs_rel refs (r_spans (h_st h)) → refs_rel committed (h_spans h) →
+  refs_walk refs committed steps (map iobs_of (hist_run h steps)) = true.
+Proof.
+  induction steps as [|s r IH]; intros h refs committed HH Hsc HR HC; [done|].
+  destruct Hsc as [Hs Hr]. pose proof (hist_step_HInv h s HH Hs) as HH'.
+  pose proof (hist_step_snap h s) as Hsn.
+  cbn [hist_run]. destruct (hist_step h s) as [h' o] eqn:E. simpl in Hsn, HH', Hr. cbn [map refs_walk].
+  destruct s as [ev|keep|]; simpl in E.
+  - (* receive *)
+    destruct (try_receive (h_st h) (h_w h) ev) as [[[oc st'] w'] calls] eqn:Et. simplify_eq. simpl in *.
+    pose proof (try_receive_refines _ _ _ _ _ _ _ (hinv_st _ HH) Hs Et) as Href.
+    unfold astep in Href. injection Href as Ho Ha. simpl in Ho, Ha.
+    assert (Hsp : r_spans st' = match oc with Accepted => spec_step (r_spans (h_st h)) ev | _ => r_spans (h_st h) end).
+    { rewrite Ho in Ha. unfold abs in Ha. destruct oc; injection Ha as _ Ha; by rewrite <- Ha. }
+    destruct oc as [|e|].
+    + assert (HR' : refs_rel (refs_event refs ev) (r_spans st')) by (rewrite Hsp; by apply refs_event_rel).
+      rewrite (refs_match_rel _ _ HR'). simpl. by apply IH.
+    + assert (HR' : refs_rel refs (r_spans st')) by (by rewrite Hsp).
+      rewrite (refs_match_rel _ _ HR'). simpl. by apply IH.
+    + assert (HR' : refs_rel refs (r_spans st')) by (by rewrite Hsp).
+      rewrite (refs_match_rel _ _ HR'). simpl. by destruct r.
+  - (* persist *)
+    unfold persist in E.
+    pose proof (restore_spec (h_w h) (persist_metadata (h_st h) ∪ h_md h) (r_spans (h_st h))
+                  (if keep then r_local (h_st h) else ∅)) as Hrs.
+    destruct (restore _ _ _ _) as [[st' w'] regs]. simplify_eq. simpl in *.
+    destruct Hrs as (_ & E2 & _).
+    assert (HR' : refs_rel refs (r_spans st')) by (by rewrite E2).
+    rewrite (refs_match_rel _ _ HR'). simpl. apply IH; try done.
+  - (* drop *)
+    pose proof (restore_spec (h_w h) (h_md h) (h_spans h) ∅) as Hrs.
+    destruct (restore _ _ _ _) as [[st' w'] regs]. simplify_eq. simpl in *.
+    destruct Hrs as (_ & E2 & _).
+    assert (HR' : refs_rel committed (r_spans st')) by (by rewrite E2).
+    rewrite (refs_match_rel _ _ HR'). simpl. apply IH; try done.
+Qed.
+
+Theorem refs_ok_model steps :
+  hist_scope hist_init steps → refs_ok steps (map iobs_of (hist_run hist_init steps)) = true.
+Proof.
+  intros Hsc. unfold refs_ok. apply refs_walk_model; [apply HInv_init | done | apply refs_rel_empty..].
+Qed.
+
+(** an implementation that does what the model does is judged [Agree] on every history in scope *)
+Theorem judge_c08_ok_on_model steps :
+  hist_scope hist_init steps →
+  ok_c08 steps (map iobs_of (hist_run hist_init steps)) && refs_ok steps (map iobs_of (hist_run hist_init steps)) = true.
+Proof. intros H. by rewrite ok_c08_model, refs_ok_model. Qed.
